@@ -574,26 +574,28 @@ func (d *Document) updateEndnotesFile() {
 
 // addFootnoteRelationship 添加脚注关系
 func (d *Document) addFootnoteRelationship() {
-	relationshipID := nextRelationshipID(d.relationships.Relationships, 1)
+	// 脚注/尾注部件由主文档部件引用，关系属于 word/_rels/document.xml.rels（rId1 保留给 styles.xml）
+	relationshipID := nextRelationshipID(d.documentRelationships.Relationships, 2)
 
 	relationship := Relationship{
 		ID:     relationshipID,
 		Type:   "http://schemas.openxmlformats.org/officeDocument/2006/relationships/footnotes",
 		Target: "footnotes.xml",
 	}
-	d.relationships.Relationships = append(d.relationships.Relationships, relationship)
+	d.documentRelationships.Relationships = append(d.documentRelationships.Relationships, relationship)
 }
 
 // addEndnoteRelationship 添加尾注关系
 func (d *Document) addEndnoteRelationship() {
-	relationshipID := nextRelationshipID(d.relationships.Relationships, 1)
+	// 脚注/尾注部件由主文档部件引用，关系属于 word/_rels/document.xml.rels（rId1 保留给 styles.xml）
+	relationshipID := nextRelationshipID(d.documentRelationships.Relationships, 2)
 
 	relationship := Relationship{
 		ID:     relationshipID,
 		Type:   "http://schemas.openxmlformats.org/officeDocument/2006/relationships/endnotes",
 		Target: "endnotes.xml",
 	}
-	d.relationships.Relationships = append(d.relationships.Relationships, relationship)
+	d.documentRelationships.Relationships = append(d.documentRelationships.Relationships, relationship)
 }
 
 // GetFootnoteCount 获取脚注数量
@@ -783,12 +785,13 @@ func (d *Document) saveSettings(settings *Settings) error {
 
 // addSettingsRelationship 添加设置文件关系
 func (d *Document) addSettingsRelationship() {
-	relationshipID := nextRelationshipID(d.relationships.Relationships, 1)
+	// settings 部件由主文档部件引用，关系属于 word/_rels/document.xml.rels，目标相对于 word/
+	relationshipID := nextRelationshipID(d.documentRelationships.Relationships, 2)
 
 	relationship := Relationship{
 		ID:     relationshipID,
 		Type:   "http://schemas.openxmlformats.org/officeDocument/2006/relationships/settings",
-		Target: "word/settings.xml",
+		Target: "settings.xml",
 	}
-	d.relationships.Relationships = append(d.relationships.Relationships, relationship)
+	d.documentRelationships.Relationships = append(d.documentRelationships.Relationships, relationship)
 }
